@@ -154,6 +154,10 @@ func vBuildActive(n, nt, per int) (*Active, []*vDocT) {
 				m.Tokens = append(m.Tokens, MetaToken{Key: []byte("f"), Value: []byte(vTokVals[t])})
 			}
 		}
+		if vConcrete {
+			// a third, short field: its token-table block is read after (and into the buffer of) field f's
+			m.Tokens = append(m.Tokens, MetaToken{Key: []byte("g"), Value: []byte("x")})
+		}
 		docs = append(docs, d)
 		metas = append(metas, m)
 		if len(metas) == per || i == n-1 {
